@@ -746,6 +746,13 @@ fn run(case: &Value, base: &Path, serial: u64) -> Value {
 }
 
 fn main() {
+    // Real nodes always run with a tracing subscriber, and `tracing` evaluates the ARGUMENTS of
+    // error!/warn!/info!/debug!/trace! only when a subscriber enables the callsite: format every
+    // event at TRACE level into a sink, so that a panicking log argument surfaces as a `panic` here.
+    let _ = tracing_subscriber::fmt()
+        .with_max_level(tracing::Level::TRACE)
+        .with_writer(std::io::sink)
+        .try_init();
     let args: Vec<String> = std::env::args().collect();
     if args.len() == 5 && args[1] == "--startup" {
         // child mode of run_startup(kill = true)
